@@ -263,7 +263,7 @@ pub fn add_sections(rep: &mut Report, prop: &str, thorough: bool, conformant_onl
         });
         rep.add(sec);
     }
-    if prop == "C07" {
+    if prop == "C07" || prop == "C04" {
         // caller-supplied attribute values are opaque bytes: whatever their shape, they appear byte for byte
         let y = der::string(der::T_UTF8, b"y");
         let five = der::uint(&[5]);
